@@ -48,3 +48,14 @@ claim('C04', 'other',
       'abstract interpretation of decoder ASTs over enumerated flag/version domain + specification and registry comparison',
       _TB + '; /verif/spec/native_protocol.py ERROR_CODES/ROWS_FLAGS/TYPE_CODES written from the protocol specifications v1-v5',
       'DESIGN.md section 5 C04')
+
+claim('C05', 'other',
+      'static analysis (narrow): header struct mirror per version, header-complete test counts the version byte, body slice bounds, dominance of the '
+      'completeness test over dispatch, buffer reset / current-frame clearing on every loop path, stream-id dispatch facts. The quantifier over read '
+      'split points is not decided (runtime buffer contents)',
+      'struct/table agreement + CFG dataflow with branch facts (dominance / must-follow rules)', _TB, 'DESIGN.md section 5 C05')
+claim('C06', 'other',
+      'static analysis: bit-level mirror of encode_header/decode_header by abstract interpretation (with and without compression), framing constants, '
+      'sentinel agreement of uncompressed_payload_length over {-1, 0, >0} at every selection, CRC-comparison-before-use dataflow, chunk step/slice '
+      'agreement, and must-rewind on every incomplete-data path of the segment buffer',
+      'abstract interpretation of bit-field expressions + finite sentinel domain + CFG path rules', _TB, 'DESIGN.md section 5 C06')
